@@ -68,6 +68,7 @@ class Unit:
     note: str = ""
     no_nondet_static: bool = False
     quick: bool = True                # part of the quick tier
+    replace_calls: list = field(default_factory=list)  # [(callee, stub)] mechanical call substitution (goto-instrument --replace-calls): contract stubs in mode H
     minisat_cross: bool = False       # thorough tier: repeat with the default MiniSat back end
 
 
@@ -171,6 +172,20 @@ def trace_inputs(trace):
 
 
 def run_unit(u: Unit, char: str, workroot: str, canary=False, keep=False, repo=None):
+    """run a unit; if only unwinding assertions fail (a loop the recorded bound does not cover, e.g. after a
+    source change that introduces a longer library loop) retry once with a generous bound"""
+    r = _run_unit(u, char, workroot, canary, keep, repo)
+    if r.status == "undecided" and r.reason.startswith("unwinding assertion failed") and u.unwind < 640:
+        import copy
+        u2 = copy.copy(u)
+        u2.unwind = 640
+        r2 = _run_unit(u2, char, workroot, canary, keep, repo)
+        r2.wall_s += r.wall_s
+        return r2
+    return r
+
+
+def _run_unit(u: Unit, char: str, workroot: str, canary=False, keep=False, repo=None):
     repo = repo or REPO
     t0 = time.time()
     tag = "%s.%s%s" % (u.name, char, ".canary" if canary else "")
@@ -213,6 +228,18 @@ def run_unit(u: Unit, char: str, workroot: str, canary=False, keep=False, repo=N
         res.wall_s = time.time() - t0
         return res
 
+    if u.replace_calls:
+        c_gb = os.path.join(wd, "c.gb")
+        rc_cmd = ["goto-instrument"]
+        for a, b in u.replace_calls:
+            rc_cmd += ["--replace-calls", "%s:%s" % (a, b)]
+        rc_cmd += [a_gb, c_gb]
+        rc, so, se, to = sh(rc_cmd, cwd=wd, timeout=300)
+        if rc != 0 or not os.path.exists(c_gb):
+            res.reason = "goto-instrument --replace-calls failed: " + (se or so)[-800:]
+            res.wall_s = time.time() - t0
+            return res
+        os.replace(c_gb, a_gb)
     gi = None
     if u.mode == "D":
         gi = ["goto-instrument", "--dfcc", "harness", "--enforce-contract", u.enforce]
